@@ -2,10 +2,10 @@ SPECIFICATION Spec
 CONSTANTS
   Size = 3
   Triggers = {"f1", "f2", "f3"}
-  Spawned = {"h1", "h2"}
-  Closers = {"k1", "k2"}
+  Spawned = {"h1"}
+  Closers = {"k1"}
   MaxFail = 2
-  MaxKill = 2
+  MaxKill = 1
   Eager = FALSE
   Defect_AddDeadConn = FALSE
   Mut = "none"
